@@ -259,5 +259,5 @@ def case(spec, ctx):
 
 
 def shard(ctx):
-    ctx.run_given(cases(cpp=False), case, label="py")
+    ctx.run_given(cases(cpp=False), case, label="py", share=0.5)
     ctx.run_given(cases(cpp=True), case, examples=ctx.budget["cpp_examples"], label="cpp")
